@@ -4,13 +4,11 @@ go 1.22
 
 require (
 	github.com/go-chi/chi v1.5.5
+	github.com/google/uuid v1.6.0
 	github.com/sirupsen/logrus v1.9.3
 	go.amzn.com v0.0.0
 )
 
-require (
-	github.com/google/uuid v1.6.0 // indirect
-	golang.org/x/sys v0.14.0 // indirect
-)
+require golang.org/x/sys v0.14.0 // indirect
 
 replace go.amzn.com => /repo
